@@ -20,11 +20,11 @@ FIELDS = [('p', 2), ('p', 3), ('p', 5), ('p', 7), ('p', 11), ('p', 101), ('p', 2
 def shards(tier, seed):
     out = []
     for i, f in enumerate(FIELDS):
-        out.append({'name': f'list-{i}', 'field': list(f), 'np': False, 'reps': 3 if tier == 'quick' else 25})
+        out.append({'name': f'list-{i}', 'field': list(f), 'np': False, 'reps': 6 if tier == 'quick' else 100})
     for i, f in enumerate(FIELDS):
         if tier == 'quick' and i % 2:
             continue
-        out.append({'name': f'np-{i}', 'field': list(f), 'np': True, 'reps': 2 if tier == 'quick' else 15})
+        out.append({'name': f'np-{i}', 'field': list(f), 'np': True, 'reps': 2 if tier == 'quick' else 60})
     return out
 
 
